@@ -55,7 +55,7 @@ def ev_term(e):
 
 def op_term(o):
     if o["k"] == "auto":
-        return "OAuto %d" % o["g"]
+        return "OAuto %d %s %s" % (o["g"], "(Some %d%%nat)" % o["target"] if o.get("reuse") else "None", coq_bool(bool(o.get("slow"))))
     if o["k"] == "local":
         return "OLocal"
     if o["k"] == "p2":
@@ -120,8 +120,12 @@ def run(chk, only=None):
         results, ident, secs = replay_scenarios(chk, only), [], 0.0
     findings = vlib.known_findings("C17")
     preds = {f["pred"] for f in findings}
-    clean = [r for r in results if not r["scenario"]["stream"].startswith("finding:")]
-    fstream = [r for r in results if r["scenario"]["stream"].startswith("finding:")]
+    # a scenario carrying the input feature of a listed finding (tags are computed by the harness from
+    # the deterministic run: reuse after a SUCCESSFUL branch, ...) belongs to the finding stream
+    def listed(r):
+        return r["scenario"]["stream"].startswith("finding:") or any(t in preds for t in (r.get("tags") or []))
+    clean = [r for r in results if not listed(r)]
+    fstream = [r for r in results if listed(r)]
     # ---- direct oracle on the clean streams
     seen = set()
     for r in clean:
@@ -163,6 +167,8 @@ def run(chk, only=None):
                 print("STALE-FINDING: property=C17 %s no longer reproduces" % f["id"])
                 chk.notes.append("stale finding " + f["id"])
         for r in fstream:
+            if not r["scenario"]["stream"].startswith("finding:"):
+                continue
             pred = r["scenario"]["stream"].split(":", 1)[1]
             if r["oracle"] and pred not in preds:
                 chk.violation("C17 fails on the real code (%s): %s" % (pred, "; ".join(r["oracle"][:2])), slim(r), True)
